@@ -22,6 +22,17 @@ def nontrivial(ev):
     return bool(ev.get('skip_lead') or ev.get('skip_in_lookahead') or ev.get('skip_trailing'))
 
 
+def sees_line_ends(g):
+    """'$' also matches in front of a final newline: such a token LOOKS at ignorable text, so the
+    lengthening relation (whose premise is that tokens neither match nor look at it) does not apply."""
+    for r in g.rules:
+        for e in peg.rule_exprs(r):
+            for x in peg.walk(e):
+                if x[0] == 'rx' and '$' in (x[1] if isinstance(x[1], str) else x[1].decode('latin-1')):
+                    return True
+    return False
+
+
 def lengthen(t, run):
     """Duplicate the first character of a skipped run (stays ignorable for every pattern of
     the pool: ' ' / newline / '#...' / ';' / tab; the '<>' pair is duplicated whole)."""
@@ -111,6 +122,8 @@ class C04(Check):
                 return
             if 5 in idx:
                 return      # the '<' '>' pair pattern has no simple "one character longer" variant
+            if sees_line_ends(g2):
+                return
             for t in (inputs + longer)[::3]:
                 it = peg.Interp(g2, t)
                 try:
@@ -157,7 +170,7 @@ class C04(Check):
                 r0 = it.run_rule(case['entry'])
             except (peg.StepLimit, peg.RefError, RecursionError):
                 return None
-            if r0 is None:
+            if r0 is None or sees_line_ends(g):
                 return None
             base = diff.run_confirmed(mod, case['entry'], t)
             for run in it.skip_runs[:3]:
